@@ -9,7 +9,8 @@
 (* are odd units (never on an edge, never a rounding tie).                                                   *)
 EXTENDS Integers, Sequences, FiniteSets, TLC
 
-CONSTANT Configs
+CONSTANTS Configs,      \* small configurations: all theorems
+          BigConfigs    \* large maps (hundreds of pixels): the per-axis form of the partition theorem only
 VARIABLES c, i          \* configuration, chunk index
 
 W(cf) == cf[1]   H(cf) == cf[2]   TW(cf) == cf[3]   TH(cf) == cf[4]
@@ -67,7 +68,7 @@ OddLats(cf) == {j \in (-Pole(cf))..Pole(cf) : j % 2 = 1}
 \* ------------------------------------------------------------------ state space
 \* i = -2: a configuration has been chosen;  i = -1: its whole-grid theorems;  i >= 0: one of its chunks
 \* (the whole-grid theorems sit one step after the initial state so that TLC's workers share them)
-Init == c \in Configs /\ i = -2
+Init == (c \in Configs /\ i = -2) \/ (c \in BigConfigs /\ i = -3)      \* i = -3: a large map, no successors
 Next == \/ i = -2 /\ i' = -1 /\ c' = c
         \/ i = -1 /\ i' \in 0..(NChunks(c) - 1) /\ c' = c
 Spec == Init /\ [][Next]_<<c, i>>
@@ -122,4 +123,19 @@ SeamIsLocalTie == i >= 0 =>
                              /\ \A n \in 0..(NChunks(c) - 1) :
                                    Bounds(c, n)[1] = b[2] => IsTie(b[2] - (Bounds(c, n)[1] + 2), 4)   \* its east neighbour
        /\ b[3] > -Pole(c) => IsTie((b[4] - 2) - b[3], 4)                                      \* at its south seam
+\* ------------------------------------------------------------------ the partition, axis by axis
+\* chunk_spec cuts each axis independently into [t*k, min(t*(k+1), L)); the grid is the product of the two cuts, so
+\* the 2-D Partition theorem is the conjunction of two 1-D ones - cheap enough for maps of any size.
+AxisCuts(L, t) == [k \in 0..(CeilDiv(L, t) - 1) |-> <<t * k, Min2(t * (k + 1), L)>>]
+AxisPartition(L, t) ==
+    LET cuts == AxisCuts(L, t)  n == CeilDiv(L, t)
+    IN /\ cuts[0][1] = 0 /\ cuts[n - 1][2] = L
+       /\ \A k \in 0..(n - 1) : cuts[k][1] < cuts[k][2] /\ (k + 1 < n => cuts[k][2] = cuts[k + 1][1])
+       /\ \A x \in 0..(L - 1) : cuts[x \div t][1] <= x /\ x < cuts[x \div t][2]
+SpecIsProduct(cf) ==
+    LET cx == AxisCuts(W(cf), TW(cf))  cy == AxisCuts(H(cf), TH(cf))
+    IN \A k \in 0..(NChunks(cf) - 1) :
+         LET a == cx[k % PerRow(cf)]  b == cy[k \div PerRow(cf)]
+         IN ChunkSpec(cf, k) = <<a[1], b[1], a[2] - a[1], b[2] - b[1]>>
+GridByAxes == i \in {-3, -1} => (AxisPartition(W(c), TW(c)) /\ AxisPartition(H(c), TH(c)) /\ SpecIsProduct(c))
 =============================================================================
